@@ -24,7 +24,7 @@ NOT_PROVED = ["libm cos/sin/radians are the real functions up to rounding (C18.a
 ASSUMPTIONS = ["np.cos/np.sin/np.radians are the real functions up to rounding"]
 
 
-PROP_MODULES = ['C18', 'C18Ragged', 'C18Gen', 'C18Combine']
+PROP_MODULES = ['C18', 'C18Ragged', 'C18Gen', 'C18Combine', 'C18GenCombine']
 
 def nontriv(recs):
     return any(gen.nontrivial_record(r) for r in recs)
@@ -622,4 +622,15 @@ _run_main_r7 = run
 def run(ctx):
     _run_main_r7(ctx)
     corr_single3(ctx, parts=('cluster',))
+    ctx.flush()
+
+
+# ---- tw_rest2: generated zero-and-peak / cluster / slow-Stockwell definitions vs the implementation ---------------------------
+from _rest2_corr import corr_rest2  # noqa: E402
+_run_main_rest2 = run
+
+
+def run(ctx):
+    _run_main_rest2(ctx)
+    corr_rest2(ctx, parts=('cluster',))
     ctx.flush()
